@@ -361,8 +361,15 @@ def run_case(ctx, mon, cfg_id, terms, prods, start, kind, inputs_spec=None, rng=
             mon.reset()
             mon.stack_bound = (len(toks) + 3) * (len(parser.prods_map) + 2)
             case = dict(base_case, inputs=[[toks, text, [list(x) for x in expected], False]])
+            # the text is given in one of the documented forms: a string, a list of lines, any iterable of lines
+            form = (len(text) + len(toks)) % 4
+            src = text if form < 2 else text.split("\n") if form == 2 else iter(text.split("\n"))
+            if not toks and form == 3:
+                src = iter([])          # ... also one that yields no line at all
+            elif not toks and form == 2:
+                src = []
             try:
-                parser.parse(text, do_cleanup=False)
+                parser.parse(src, do_cleanup=False)
                 ctx.count("parses_returned_tree")
             except llparser.ParsingError:
                 ctx.count("parses_raised_parsing_error")
